@@ -131,6 +131,21 @@ def check(ctx):
             return a_.op == "comp" and a_.args[1].op == "tuple" and len(a_.args[1].args[0]) == 2 and \
                 a_.args[1].args[0][0] is a_.args[1].args[0][1]
         arr_ok = arr_ok or any(_ident(s_) for s_ in subterms(got_arr))
+
+        def _enum_range(s_):
+            # {label: position for position, label in enumerate(range(n))}: position == label for a range starting at 0
+            if not (s_.op == "comp" and s_.args[0] == "dict" and s_.args[1].op == "kv" and len(s_.args[2]) == 1 and not s_.args[2][0][1]):
+                return False
+            it_ = s_.args[2][0][0]
+            if not (it_.op == "call" and it_.args[0] is glob("builtins.enumerate") and len(it_.args[1]) == 1 and not it_.args[2]):
+                return False
+            rg = it_.args[1][0]
+            if not (rg.op == "call" and rg.args[0] is glob("builtins.range") and len(rg.args[1]) == 1):
+                return False
+            el_ = mk("elem", it_)
+            pair = {s_.args[1].args[0], s_.args[1].args[1]}
+            return pair == {mk("sub", el_, const(0)), mk("sub", el_, const(1))}
+        arr_ok = arr_ok or any(_enum_range(s_) for s_ in subterms(got_arr))
         if not arr_ok:
             bad.append(f"array input: lookup_ = {A2.show(got_arr, 120)} (documented: identity on column positions)")
     ctx.ob("R15.4", rl.func, None, not bad, "lookup_ maps each column label of a DataFrame to its position (identity for arrays)"
